@@ -104,11 +104,22 @@ Record kern := {
   k_sample_1x1 : Val -> nat -> Val;
   (* transplants *)
   k_lr_update : Val -> Val -> nat -> bool -> Val * Val;   (* add_low_rank: (L, M, B, return_triangular) |-> (Root(L U S~), Root(M U S~^-1)) *)
-  k_cat_update : Val -> Val -> nat -> nat -> bool -> bool -> res (Val * option Val)  (* cat_rows: (E, R, B, D, schur root triangular?, generate_inv_roots) *)
+  k_cat_update : Val -> Val -> nat -> nat -> bool -> bool -> res (Val * option Val);  (* cat_rows: (E, R, B, D, schur root triangular?, generate_inv_roots) *)
+  (* KroneckerProductLinearOperator (matrix A) from the results of its factors *)
+  k_eig_kron : Mat -> bool -> list Val -> Val; (* _symeig (eigenvectors?): Kronecker product of the factors' eigen-decompositions *)
+  k_svd_kron : Mat -> list Val -> Val;         (* _svd *)
+  k_chol_kron : Mat -> list Val -> bool -> Val;  (* KroneckerProductTriangularLinearOperator( *chol_factors, upper=upper) *)
+  k_root_kron : Mat -> list Val -> Val;        (* RootLinearOperator(KroneckerProductLinearOperator( *[r.root for r in roots])) *)
+  k_rootinv_kron : Mat -> list Val -> Val;
+  k_iqld_kron : Mat -> option Val -> option Val -> Val   (* (inv_quad term of super().inv_quad_logdet(rhs, logdet=False) | None,
+                                                            eigen-decomposition for _logdet | None) |-> (inv_quad, logdet) *)
 }.
 
 (* ------------------------------------------------------------------ objects *)
-Inductive eig_kind := EigBase | EigShift (child : nat).   (* AddedDiag with a ConstantDiag diagonal delegates to its child *)
+(* how the class computes its spectral / triangular factorizations:
+   EigBase: from its own dense matrix;  EigShift c: AddedDiag with a ConstantDiag diagonal delegates to its child c;
+   EigKron l: KroneckerProductLinearOperator delegates to its factors l (and overrides the cached protocol methods) *)
+Inductive eig_kind := EigBase | EigShift (child : nat) | EigKron (kids : list nat).
 
 Record profile := {
   pf_td_name : option string;   (* to_dense is @cached under this function name (None: not cached) *)
@@ -179,6 +190,12 @@ Definition with_obj {A} (i : nat) (f : obj -> H A) : H A :=
   fun h => match get_obj i h with Some o => f o h | None => (Raise ValueError, h) end.
 
 Definition fresh_run : H nat := fun h => (Ok (h_ctr h), {| h_objs := h_objs h; h_ctr := S (h_ctr h) |}).
+
+Fixpoint mapM {A} (f : nat -> H A) (l : list nat) : H (list A) :=
+  match l with
+  | [] => ret []
+  | c :: r => x <- f c ;; xs <- mapM f r ;; ret (x :: xs)
+  end.
 
 Definition alloc (o : obj) : H nat :=
   fun h => (Ok (List.length (h_objs h)), {| h_objs := (h_objs h ++ [o])%list; h_ctr := h_ctr h |}).
@@ -252,6 +269,11 @@ Fixpoint symeig (fuel : nat) (i : nat) (vecs : bool) : H Val :=
                     | O => raise ValueError
                     | S f => e <- symeig f c vecs ;; ret (k_eig_shift K (o_mat o) e)
                     end
+    | EigKron l => (* for lt in self.linear_ops: lt._symeig(eigenvectors=eigenvectors) *)
+                   match fuel with
+                   | O => raise ValueError
+                   | S f => es <- mapM (fun c => symeig f c vecs) l ;; ret (k_eig_kron K (o_mat o) vecs es)
+                   end
     end).
 
 (* @cached(name="svd") _svd;  svd() = self._svd() *)
@@ -264,21 +286,40 @@ Fixpoint svd (fuel : nat) (i : nat) : H Val :=
                       | O => raise ValueError
                       | S f => u <- svd f c ;; ret (k_svd_shift K (o_mat o) u)
                       end
+      | EigKron l => (* for lt in self.linear_ops: lt.svd() *)
+                     match fuel with
+                     | O => raise ValueError
+                     | S f => us <- mapM (svd f) l ;; ret (k_svd_kron K (o_mat o) us)
+                     end
       end) [] []).
 
 (* @cached(name="cholesky") _cholesky(upper=False): evaluate_kernel() rebuilds a fresh copy, so nothing else
    of the heap is touched *)
-Definition _cholesky (i : nat) (args : list pyv) (kw : kwargs) : H Val :=
+(* cholesky(upper=False): chol = self._cholesky(upper=False); if upper: chol = chol._transpose_nonbatch()
+   (chol_ = the object's _cholesky) *)
+Definition cholesky_of (chol_ : list pyv -> kwargs -> H Val) (args : list pyv) (kw : kwargs) : H Val :=
+  p <- lift (bind_params ["upper"] args kw) ;;
+  c <- chol_ [] [("upper", PBool false)] ;;
+  ret (if truthy (nth 0 p PNone) then k_tri_T K c else c).
+
+(* KroneckerProductLinearOperator._cholesky (same decorator): chol_factors = [lt.cholesky(upper=upper) for lt in
+   self.linear_ops] - every factor's own cache is written *)
+Fixpoint _cholesky (fuel : nat) (i : nat) (args : list pyv) (kw : kwargs) : H Val :=
   with_obj i (fun o =>
     cached_m i "_cholesky" (Some "cholesky") (pf_chol_ignore (o_pf o)) (fun a k =>
       p <- lift (bind_params ["upper"] a k) ;;
-      lift (k_chol K (o_mat o) (truthy (nth 0 p PNone)))) args kw).
+      match pf_eig (o_pf o) with
+      | EigKron l =>
+          match fuel with
+          | O => raise ValueError
+          | S f => cs <- mapM (fun c => cholesky_of (_cholesky f c) [] [("upper", nth 0 p PNone)]) l ;;
+                   ret (k_chol_kron K (o_mat o) cs (truthy (nth 0 p PNone)))
+          end
+      | _ => lift (k_chol K (o_mat o) (truthy (nth 0 p PNone)))
+      end) args kw).
 
-(* cholesky(upper=False): chol = self._cholesky(upper=False); if upper: chol = chol._transpose_nonbatch() *)
-Definition cholesky (i : nat) (args : list pyv) (kw : kwargs) : H Val :=
-  p <- lift (bind_params ["upper"] args kw) ;;
-  c <- _cholesky i [] [("upper", PBool false)] ;;
-  ret (if truthy (nth 0 p PNone) then k_tri_T K c else c).
+Definition cholesky (fuel : nat) (i : nat) (args : list pyv) (kw : kwargs) : H Val :=
+  cholesky_of (_cholesky fuel i) args kw.
 
 Definition in_cache_all (i : nat) (nm : string) : H bool :=
   py__is_in_cache_ignore_all_args (L := obj_lens i) (NStr nm).
@@ -300,8 +341,7 @@ Definition method_of (v : pyv) : res (option string) :=
   match v with PNone => Ok None | PStr s => Ok (Some s) | _ => Ok (Some "?") end.
 
 (* @cached(name="diagonalization") diagonalization(method=None) *)
-Definition diagonalization (st : settings) (fuel : nat) (i : nat) (args : list pyv) (kw : kwargs) : H Val :=
-  with_obj i (fun o =>
+Definition diagonalization_base (st : settings) (fuel : nat) (i : nat) (o : obj) : list pyv -> kwargs -> H Val :=
     cached_m i "diagonalization" (Some "diagonalization") false (fun a k =>
       p <- lift (bind_params ["method"] a k) ;;
       if negb (o_square o) then raise RuntimeError else
@@ -311,7 +351,19 @@ Definition diagonalization (st : settings) (fuel : nat) (i : nat) (args : list p
                | Some s => s end in
       if String.eqb m "lanczos" then r <- fresh_run ;; lift (k_diagz_lanczos K (o_mat o) (o_n o) r)
       else if String.eqb m "symeig" then symeig fuel i true
-      else raise RuntimeError) args kw).
+      else raise RuntimeError).
+
+Definition diagonalization (st : settings) (fuel : nat) (i : nat) (args : list pyv) (kw : kwargs) : H Val :=
+  with_obj i (fun o =>
+    let base_cached := diagonalization_base st fuel i o in
+    match pf_eig (o_pf o) with
+    | EigKron _ =>
+        (* KroneckerProductLinearOperator.diagonalization (not decorated): if method is None: method = "symeig";
+           return super().diagonalization(method=method) *)
+        p <- lift (bind_params ["method"] args kw) ;;
+        base_cached [] [("method", if is_none (nth 0 p PNone) then PStr "symeig" else nth 0 p PNone)]
+    | _ => base_cached args kw
+    end).
 
 (* @cached(name="root_decomposition") root_decomposition(method=None) *)
 Fixpoint root_decomposition (st : settings) (fuel : nat) (i : nat) (args : list pyv) (kw : kwargs) : H Val :=
@@ -324,7 +376,7 @@ Fixpoint root_decomposition (st : settings) (fuel : nat) (i : nat) (args : list 
       m <- match m0 with None => choose_root_method st i | Some s => ret s end ;;
       (* if method == "cholesky": try: return CholLinearOperator(self.cholesky()) except RuntimeError: method = "symeig" *)
       r <- (if String.eqb m "cholesky"
-            then catch (c <- cholesky i [] [] ;; ret (inl (k_cholop K c))) [RuntimeError] (ret (inr "symeig"))
+            then catch (c <- cholesky fuel i [] [] ;; ret (inl (k_cholop K c))) [RuntimeError] (ret (inr "symeig"))
             else ret (inr m)) ;;
       match r with
       | inl v => ret v
@@ -336,6 +388,22 @@ Fixpoint root_decomposition (st : settings) (fuel : nat) (i : nat) (args : list 
           else if String.eqb m "lanczos" then r <- fresh_run ;; ret (k_root_lanczos K (o_mat o) r)
           else raise RuntimeError
       end in
+    match pf_eig (o_pf o) with
+    | EigKron l =>
+        (* KroneckerProductLinearOperator: @cached(name="root_decomposition") override:
+           if self.shape[-1] <= max_cholesky_size: return super().root_decomposition(method=method)   (the base method,
+           itself cached: a second entry under (name, (), {"method": method}));
+           else the Kronecker product of the factors' roots *)
+        cached_m i "root_decomposition" (Some "root_decomposition") false (fun a k =>
+          p <- lift (bind_params ["method"] a k) ;;
+          if o_n o <=? st_max_chol st
+          then cached_m i "root_decomposition" (Some "root_decomposition") false base [] [("method", nth 0 p PNone)]
+          else match fuel with
+               | O => raise ValueError
+               | S f => rs <- mapM (fun c => root_decomposition st f c [] [("method", nth 0 p PNone)]) l ;;
+                        ret (k_root_kron K (o_mat o) rs)
+               end) args kw
+    | _ =>
     match pf_cm_root (o_pf o), fuel with
     | Some c, S f =>
         (* ConstantMulLinearOperator: @cached(name="root_decomposition") override, non-negative constant:
@@ -346,18 +414,18 @@ Fixpoint root_decomposition (st : settings) (fuel : nat) (i : nat) (args : list 
           ret (k_root_scale K (o_mat o) r)) args kw
     | Some _, O => raise ValueError
     | None, _ => cached_m i "root_decomposition" (Some "root_decomposition") false base args kw
+    end
     end).
 
 (* @cached(name="root_inv_decomposition") root_inv_decomposition(initial_vectors=None, test_vectors=None, method=None) *)
-Definition root_inv_decomposition (st : settings) (fuel : nat) (i : nat) (args : list pyv) (kw : kwargs) : H Val :=
-  with_obj i (fun o =>
+Definition root_inv_base (st : settings) (fuel : nat) (i : nat) (o : obj) : list pyv -> kwargs -> H Val :=
     cached_m i "root_inv_decomposition" (Some "root_inv_decomposition") false (fun a k =>
       p <- lift (bind_params ["initial_vectors"; "test_vectors"; "method"] a k) ;;
       if negb (o_square o) then raise RuntimeError else
       if o_n o =? 1 then d <- to_dense fuel i ;; ret (k_rootinv_1x1 K d) else
       m0 <- lift (method_of (nth 2 p PNone)) ;;
       m <- match m0 with None => choose_root_method st i | Some s => ret s end ;;
-      if String.eqb m "cholesky" then L <- cholesky i [] [] ;; ret (k_rootinv_chol K L)
+      if String.eqb m "cholesky" then L <- cholesky fuel i [] [] ;; ret (k_rootinv_chol K L)
       else if String.eqb m "lanczos" then
         (* initial_vectors is None in every modelled call *)
         if negb (is_none (nth 0 p PNone)) then raise NotImplementedError else
@@ -369,7 +437,30 @@ Definition root_inv_decomposition (st : settings) (fuel : nat) (i : nat) (args :
       else if String.eqb m "diagonalization" then e <- diagonalization st fuel i [] [] ;; ret (k_rootinv_eig K e)
       else if String.eqb m "svd" then u <- svd fuel i ;; ret (k_rootinv_svd K u)
       else if String.eqb m "pinverse" then r <- root_decomposition st fuel i [] [] ;; ret (k_rootinv_pinv K (v_root K r))
-      else raise RuntimeError) args kw).
+      else raise RuntimeError).
+
+(* kids_call c a k = root_inv_decomposition of the factor c (open recursion: tied below) *)
+Definition root_inv_body (kids_call : nat -> list pyv -> kwargs -> H Val)
+           (st : settings) (fuel : nat) (i : nat) (args : list pyv) (kw : kwargs) : H Val :=
+  with_obj i (fun o =>
+    let base_cached := root_inv_base st fuel i o in
+    match pf_eig (o_pf o) with
+    | EigKron l =>
+        (* KroneckerProductLinearOperator: @cached(name="root_inv_decomposition") override:
+           small: return super().root_inv_decomposition()   (NO arguments are passed on);
+           else the Kronecker product of lt.root_inv_decomposition().root *)
+        cached_m i "root_inv_decomposition" (Some "root_inv_decomposition") false (fun a k =>
+          p <- lift (bind_params ["initial_vectors"; "test_vectors"; "method"] a k) ;;
+          if o_n o <=? st_max_chol st then base_cached [] []
+          else rs <- mapM (fun c => kids_call c [] []) l ;; ret (k_rootinv_kron K (o_mat o) rs)) args kw
+    | _ => base_cached args kw
+    end).
+
+Fixpoint root_inv_decomposition (st : settings) (fuel : nat) (i : nat) (args : list pyv) (kw : kwargs) : H Val :=
+  root_inv_body (match fuel with
+                 | O => fun _ _ _ => raise ValueError
+                 | S f => root_inv_decomposition st f
+                 end) st fuel i args kw.
 
 (* eigh / eigvalsh: try: evals, evecs = pop_from_cache(self, "symeig", eigenvectors=True); return evals, None *)
 Definition eigh (fuel : nat) (i : nat) : H Val :=
@@ -393,8 +484,7 @@ Definition preconditioner (st : settings) (i : nat) : H Val :=
     end).
 
 (* inv_quad_logdet(inv_quad_rhs, logdet) *)
-Definition inv_quad_logdet (st : settings) (fuel : nat) (i : nat) (rhs : option nat) (logdet : bool) : H Val :=
-  with_obj i (fun o =>
+Definition inv_quad_logdet_base (st : settings) (fuel : nat) (i : nat) (o : obj) (rhs : option nat) (logdet : bool) : H Val :=
     if negb (st_fc_logprob st) || (o_n o <=? st_max_chol st) then
       (* CholLinearOperator.inv_quad_logdet returns None for the term that was not asked for; the Cat override
          then calls .to(device) on it *)
@@ -407,11 +497,37 @@ Definition inv_quad_logdet (st : settings) (fuel : nat) (i : nat) (rhs : option 
               else ret None) ;;
       match tri with
       | Some t => fin (k_iqld_chol K t rhs logdet)
-      | None => c <- cholesky i [] [] ;; fin (k_iqld_chol K c rhs logdet)
+      | None => c <- cholesky fuel i [] [] ;; fin (k_iqld_chol K c rhs logdet)
       end
     else
+      (* if not logdet: return self.inv_quad(inv_quad_rhs), zeros   - InvQuad works on a rebuilt copy: no cache of
+         the heap (in the dict or outside it) is read or written *)
+      if negb logdet then
+        match rhs with
+        | None => raise RuntimeError
+        | Some _ => if negb (o_square o) then raise RuntimeError
+                    else ret (k_iqld_cg K (o_mat o) (k_no_precond K (o_mat o)) rhs false)
+        end
+      else
       if negb (o_square o) then raise RuntimeError else
-      p <- preconditioner st i ;; ret (k_iqld_cg K (o_mat o) p rhs logdet)).
+      p <- preconditioner st i ;; ret (k_iqld_cg K (o_mat o) p rhs logdet).
+
+Definition inv_quad_logdet (st : settings) (fuel : nat) (i : nat) (rhs : option nat) (logdet : bool) : H Val :=
+  with_obj i (fun o =>
+    let base := inv_quad_logdet_base st fuel i o in
+    match pf_eig (o_pf o) with
+    | EigKron _ =>
+        (* KroneckerProductLinearOperator.inv_quad_logdet:
+           inv_quad_term, _ = super().inv_quad_logdet(inv_quad_rhs, logdet=False) if inv_quad_rhs is not None else None
+           logdet_term = self._logdet() if logdet else None       (_logdet: evals, _ = self.diagonalization()) *)
+        iq <- match rhs with
+              | Some r => x <- base (Some r) false ;; ret (Some x)
+              | None => ret None
+              end ;;
+        ld <- (if logdet then e <- diagonalization st fuel i [] [] ;; ret (Some e) else ret None) ;;
+        ret (k_iqld_kron K (o_mat o) iq ld)
+    | _ => base rhs logdet
+    end).
 
 Definition logdet (st : settings) (fuel : nat) (i : nat) : H Val :=
   r <- inv_quad_logdet st fuel i None true ;; ret (k_snd K r).
@@ -449,7 +565,7 @@ Definition run_query (st : settings) (i : nat) (q : query) : H Val :=
   let fuel := S i in
   match q with
   | QToDense => to_dense fuel i
-  | QCholesky a k => cholesky i a k
+  | QCholesky a k => cholesky fuel i a k
   | QRootDecomp a k => root_decomposition st fuel i a k
   | QRootInv a k => root_inv_decomposition st fuel i a k
   | QDiagz a k => diagonalization st fuel i a k
